@@ -124,6 +124,28 @@ pub fn body(inst: &str) {
                 must("index_mut", || { let mut t = vv(&a); t[n - 1] = w; t }, |r| { let mut m = a.clone(); m[n - 1] = w; expect_vec("index_mut", &r, &m) });
             }
             for m_ in 0..=n + 2 { must("resize", || { let mut t = vv(&a); t.resize(m_); t }, |r| { let mut m = a.clone(); m.resize(m_, z()); expect_vec(&format!("resize({})", m_), &r, &m) }); }
+            // shrink-then-grow histories: spare capacity / stale storage left by the first call must not show in the second
+            // (the single steps start from a freshly built vector whose capacity equals its length)
+            {
+                type Op = (&'static str, fn(&mut Vector<Sym>, Sym), fn(&mut Vec<Sym>, Sym));
+                let shrink: Vec<Op> = vec![
+                    ("pop", |t, _| { if t.size() > 0 { t.pop(); } }, |m, _| { m.pop(); }),
+                    ("clear", |t, _| t.clear(), |m, _| m.clear()),
+                    ("resize(0)", |t, _| t.resize(0), |m, _| m.clear()),
+                    ("resize(len/2)", |t, _| { let k = t.size() / 2; t.resize(k) }, |m, _| { let k = m.len() / 2; m.truncate(k) }),
+                ];
+                let grow: Vec<Op> = vec![
+                    ("resize(len+1)", |t, _| { let k = t.size() + 1; t.resize(k) }, |m, _| { let k = m.len() + 1; m.resize(k, Sym::lit(0.0)) }),
+                    ("resize(len+3)", |t, _| { let k = t.size() + 3; t.resize(k) }, |m, _| { let k = m.len() + 3; m.resize(k, Sym::lit(0.0)) }),
+                    ("push", |t, w| t.push(w), |m, w| m.push(w)),
+                    ("push_front", |t, w| t.push_front(w), |m, w| m.insert(0, w)),
+                    ("insert(0)", |t, w| t.insert(0, w), |m, w| m.insert(0, w)),
+                ];
+                for (sn, sf, sm) in &shrink { for (gn, gf, gm) in &grow {
+                    let tag = format!("{};{}", sn, gn);
+                    must(&tag, || { let mut t = vv(&a); sf(&mut t, w); gf(&mut t, w); t }, |r| { let mut m = a.clone(); sm(&mut m, w); gm(&mut m, w); expect_vec(&tag, &r, &m) });
+                } }
+            }
             must("assign", || { let mut t = vv(&a); t.assign(w); t }, |r| expect_vec("assign", &r, &vec![w; n]));
             must("clear", || { let mut t = vv(&a); t.clear(); t }, |r| expect_vec("clear", &r, &[]));
             must("clear;push", || { let mut t = vv(&a); t.clear(); t.push(w); t }, |r| expect_vec("clear;push", &r, &[w]));
